@@ -35,7 +35,10 @@ RULE = ("solved graphs produced by the real perform_compile over generated in-me
         "extracted Coq parse_lockfile read the same text and the resulting dicts (order, every field) or error "
         "classes are compared; the Coq writer model must reproduce the real text byte for byte and, inside the "
         "theorem's guard, lock_view must equal the loader's answer; plus end-to-end runs of "
-        "private/compiler.py compile_main on wheel directories on disk, ~15% mutated/malformed lock texts, "
+        "private/compiler.py compile_main on zip-built wheel directories (requirements.in next to the lock, in a "
+        "sub-directory or in a sibling directory, with --find-links relative to the input file; fresh and re-compiled on "
+        "the lock just written) where, for layouts inside the guard, the loader's answer is compared with the statement "
+        "computed from the layout alone (pins, versions, file sha256, wheel labels, dependencies); ~15% mutated/malformed lock texts, "
         "sanitize/normalize on generated names, urljoin on relative paths. Non-trivial = a lock text with at "
         "least two pins and one project-to-project requirer edge; distinct = distinct lock texts.")
 TRUSTED_BASE = [
@@ -635,45 +638,67 @@ def mkwheel(d: Path, name: str, ver: str, requires: List[str]) -> Path:
     return fn
 
 
-def run_e2e(ctx: Ctx, layout: Dict[str, Any]) -> str:
-    """layout: reqs_dir, wheels {dir: [[name, version, [requires]]]}, requirements_in (text).
-    Builds the workspace on disk and runs the real compile_main(no_index=True)."""
+def run_e2e_full(ctx: Ctx, layout: Dict[str, Any]) -> Tuple[str, Dict[str, str]]:
+    """layout: reqs_dir (directory of the solution/lock file, relative to the workspace),
+    in_dir (directory of requirements.in relative to reqs_dir, default "."), wheels
+    {dir relative to reqs_dir: [[name, version, [requires]]]}, requirements_in (text; its
+    --find-links directives are relative to the input file), recompile (run a second time on
+    the lock just written).  Builds the workspace on disk and runs the real
+    private/compiler.py compile_main(no_index=True) with output == solution, as the
+    py_reqs_compiler rule does.  Returns the lock text and {wheel file name: sha256}."""
+    import hashlib
     e = env()
     ws = ctx.tmpdir() / ("e2e-%d" % (ctx.evaluations,))
     shutil.rmtree(ws, ignore_errors=True)
     rd = ws / layout["reqs_dir"]
     rd.mkdir(parents=True)
+    ind = Path(os.path.normpath(rd / layout.get("in_dir", ".")))
+    ind.mkdir(parents=True, exist_ok=True)
+    shas: Dict[str, str] = {}
     for d, whls in layout["wheels"].items():
         Path(os.path.normpath(rd / d)).mkdir(parents=True, exist_ok=True)
         for name, ver, requires in whls:
-            mkwheel(Path(os.path.normpath(rd / d)), name, ver, requires)
-    (rd / "requirements.in").write_text(layout["requirements_in"])
+            fn = mkwheel(Path(os.path.normpath(rd / d)), name, ver, requires)
+            shas[fn.name] = hashlib.sha256(fn.read_bytes()).hexdigest()
+    (ind / "requirements.in").write_text(layout["requirements_in"])
     (rd / "requirements.txt").write_text("")
-    key_in = "_main/%s/requirements.in" % layout["reqs_dir"]
+    key_in = "_main/%s/requirements.in" % os.path.relpath(ind, ws).replace(os.sep, "/")
     key_sol = "_main/%s/requirements.txt" % layout["reqs_dir"]
     r = e.Runfiles()
-    r.map = {key_in: str(rd / "requirements.in"), key_sol: str(rd / "requirements.txt")}
+    r.map = {key_in: str(ind / "requirements.in"), key_sol: str(rd / "requirements.txt")}
     old_env = os.environ.get("BUILD_WORKSPACE_DIRECTORY")
     os.environ["BUILD_WORKSPACE_DIRECTORY"] = str(ws)
-    args = argparse.Namespace(requirements_files=[key_in], solution=key_sol, output=Path(layout["reqs_dir"]) / "out.txt",
+    args = argparse.Namespace(requirements_files=[key_in], solution=key_sol, output=Path(layout["reqs_dir"]) / "requirements.txt",
                               custom_compile_command="bazel run //%s:requirements.update" % layout["reqs_dir"], upgrade=False,
                               allow_sdists=False, no_index=True, wheel_dir=None, verbose=False)
     so, old = io.StringIO(), sys.stdout
     sys.stdout = so
     try:
         e.comp.compile_main(args, r)
+        if layout.get("recompile"):
+            e.comp.compile_main(args, r)
     finally:
         sys.stdout = old
         if old_env is None:
             os.environ.pop("BUILD_WORKSPACE_DIRECTORY", None)
         else:
             os.environ["BUILD_WORKSPACE_DIRECTORY"] = old_env
-    text = (rd / "out.txt").read_text()
+    text = (rd / "requirements.txt").read_text()
     shutil.rmtree(ws, ignore_errors=True)
-    return text
+    return text, shas
+
+
+def run_e2e(ctx: Ctx, layout: Dict[str, Any]) -> str:
+    return run_e2e_full(ctx, layout)[0]
+
+
+E2E_IN_DIRS = [".", ".", "in", "sub/in", "../sib", "../../other/in"]
 
 
 def gen_layout(rng, fls: Optional[List[str]] = None) -> Dict[str, Any]:
+    """Workspace layouts for compile_main.  The wheel directories are given relative to the
+    lock file's directory; requirements.in may live elsewhere (sub-directory, sibling
+    directory) and names them relative to itself, as a user writes them."""
     names = rng.sample(["Foo.Bar", "baz-qux", "lone", "extra1", "Zed", "m.n-o", "pkg_a"], rng.choice([2, 3, 4, 5]))
     if fls is None:
         fls = [rng.choice(FL_SIMPLE)] if rng.random() < 0.75 else rng.choice([["w1", "w2"], ["sub/wheels"], ["../wheels"], ["./wheels"]])
@@ -684,8 +709,91 @@ def gen_layout(rng, fls: Optional[List[str]] = None) -> Dict[str, Any]:
             if rng.random() < 0.5:
                 reqs.append(dep + rng.choice(["", ">=0", "[x]", " ; extra == 'x'"]))
         wheels[rng.choice(fls)].append([nm, rng.choice(["1.0", "2.1", "0.3.post1"]), reqs])
-    return {"reqs_dir": rng.choice(["pkg", "a/b", "x"]), "wheels": wheels, "find_links": fls,
-            "requirements_in": "".join("--find-links %s\n" % d for d in fls) + "\n" + names[0].lower() + rng.choice(["", "[x]"]) + "\n"}
+    reqs_dir = rng.choice(["pkg", "a/b", "x", "3rdparty"])
+    in_dir = rng.choice(E2E_IN_DIRS)
+    if in_dir.startswith("../../") and "/" not in reqs_dir:
+        in_dir = "../sib"          # stay inside the workspace
+    directives = []
+    for d in fls:
+        rel = os.path.relpath(os.path.normpath(os.path.join("/ws", reqs_dir, d)), os.path.normpath(os.path.join("/ws", reqs_dir, in_dir)))
+        if d.startswith("./") and in_dir == ".":
+            rel = d
+        directives.append(rel.replace(os.sep, "/"))
+    return {"reqs_dir": reqs_dir, "in_dir": in_dir, "wheels": wheels, "find_links": fls, "recompile": rng.random() < 0.3,
+            "root": names[0],
+            "requirements_in": "".join("--find-links %s\n" % d for d in directives) + "\n" + names[0].lower() + rng.choice(["", "[x]"]) + "\n"}
+
+
+def layout_accepted(layout: Dict[str, Any]) -> bool:
+    """Layouts the unchanged loader is expected to accept: one wheel directory that is a
+    direct child of the lock file's directory (the guard of the theorem)."""
+    fls = layout["find_links"]
+    return len(fls) == 1 and "/" not in fls[0] and fls[0] not in (".", "..") and not fls[0].startswith("..")
+
+
+def _nkey(name: str) -> str:
+    return name.lower().replace("-", "_").replace(".", "_")
+
+
+def oracle_e2e(ctx: Ctx, layout: Dict[str, Any]) -> Optional[str]:
+    """The property statement on one end-to-end layout, computed from the layout alone (what
+    is on disk and what requirements.in asks for): every project reachable from the input is
+    recovered once, with the wheel's version, the sha256 of the wheel file, the label of the
+    file below the lock's package, and exactly the projects its metadata requires."""
+    from packaging.requirements import Requirement
+    e = env()
+    text, shas = run_e2e_full(ctx, layout)
+    label = "@//%s:requirements.txt" % layout["reqs_dir"]
+    obs = canon_impl(e, text, label, None, {})
+    if obs[0] != "OK":
+        return "the loader rejects the lock compile_main wrote: %s (%s)" % (obs[1], " | ".join(
+            l.strip() for l in text.split("\n") if l.startswith("--find-links") or ".whl" in l)[:300])
+    projects: Dict[str, Any] = {}
+    for d, whls in layout["wheels"].items():
+        for name, ver, requires in whls:
+            projects[_nkey(name)] = (name, ver, [Requirement(r) for r in requires], d)
+    lines = [l.strip() for l in layout["requirements_in"].split("\n") if l.strip() and not l.startswith("-")]
+    extras: Dict[str, set] = {}
+    edges: Dict[str, set] = {}
+    todo = []
+    for l in lines:
+        rq = Requirement(l)
+        extras.setdefault(_nkey(rq.name), set()).update(x.lower() for x in rq.extras)
+        todo.append(_nkey(rq.name))
+    changed = True
+    while changed:
+        changed = False
+        for k in list(extras):
+            if k not in projects:
+                return None     # not resolvable from the wheel directories: no statement to check
+            edges.setdefault(k, set())
+            for rq in projects[k][2]:
+                active = rq.marker is None or any(rq.marker.evaluate({"extra": x}) for x in [""] + sorted(extras[k]))
+                if not active:
+                    continue
+                dk = _nkey(rq.name)
+                new = {x.lower() for x in rq.extras}
+                if dk not in extras or not new <= extras[dk] or dk not in edges[k]:
+                    changed = True
+                extras.setdefault(dk, set()).update(new)
+                edges[k].add(dk)
+    got = {row[0]: row for row in obs[1]}
+    if sorted(got) != sorted(extras) or len(obs[1]) != len(extras):
+        return "the loader recovers %r, the solution pins %r" % (sorted(got), sorted(extras))
+    for k in extras:
+        name, ver, _, d = projects[k]
+        _, pkg, gver, sha, url, whl, _, _, via, deps = got[k]
+        fn = "%s-%s-py3-none-any.whl" % (name.replace("-", "_"), ver)
+        if gver != ver:
+            return "version of %s: %r, wheel has %r" % (name, gver, ver)
+        if sha != shas.get(fn):
+            return "sha256 of %s: %r, file has %r" % (name, sha, shas.get(fn))
+        want = "@//%s:%s/%s" % (layout["reqs_dir"], d, fn)
+        if url is not None or whl != want:
+            return "wheel label of %s: %r (url %r), expected %r" % (name, whl, url, want)
+        if sorted(set(deps)) != sorted(edges[k]):
+            return "dependencies of %s: %r, its metadata requires %r" % (name, sorted(set(deps)), sorted(edges[k]))
+    return None
 
 
 # ----------------------------------------------------------------------------------------
@@ -792,19 +900,27 @@ def correspondence(ctx: Ctx) -> None:
         add("L", "L {} {} {}".format(label_tokens(e, spec["label"]), opt_tok(c), view_tokens(case["view"])), info)
         texts.append((text, spec["label"]))
 
-    # (2) end to end: private/compiler.py compile_main on wheel directories on disk
-    for _ in range(ctx.n(40, 400)):
-        layout = gen_layout(rng)
+    # (2) end to end: private/compiler.py compile_main on wheel directories on disk; requirements.in
+    #     next to the lock, in a sub-directory or in a sibling directory; fresh and re-compiled
+    for _ in range(ctx.n(60, 500)):
+        layout = gen_layout(rng) if rng.random() < 0.6 else gen_layout(rng, fls=[rng.choice(FL_SIMPLE)])
         try:
             text = run_e2e(ctx, layout)
         except SystemExit:
             ctx.count("e2e-skipped:exit")
             continue
-        label = "@//%s:out.txt" % layout["reqs_dir"]
+        label = "@//%s:requirements.txt" % layout["reqs_dir"]
         obs = canon_impl(e, text, label, None, {})
         ctx.count("e2e:" + ("ok" if obs[0] == "OK" else obs[1]))
+        ctx.count("e2e-input-dir:" + layout["in_dir"] + (",recompiled" if layout["recompile"] else ""))
         add("P", p_line(e, text, label, None, {}), {"src": "e2e", "layout": layout, "text": text, "label": label, "constraint": None, "annotations": {}, "impl": obs})
         texts.append((text, label))
+        if layout_accepted(layout):
+            ctx.count("e2e-statement-checked")
+            why = oracle_e2e(ctx, layout)
+            if why is not None:
+                ctx.mismatch("statement-on-implementation:e2e", {"src": "e2e", "layout": layout, "text": text, "label": label}, why,
+                             "holds inside the guard (theorem)")
 
     # (3) mutated / malformed texts (about 15 % of the lock texts)
     n_bad = max(20, int(0.18 * len(texts)))
@@ -1016,15 +1132,20 @@ def search(ctx: Ctx) -> Optional[Dict[str, Any]]:
         why = _oracle_on_spec(ctx, spec)
         if why:
             return {"kind": "graph", "input": spec, "why": why}
-    for _ in range(ctx.n(10, 60)):
+    for mm in ctx.mismatches:
+        c = mm.get("case")
+        if isinstance(c, dict) and c.get("layout") and layout_accepted(c["layout"]):
+            why = oracle_e2e(ctx, c["layout"])
+            if why:
+                return {"kind": "e2e", "input": c["layout"], "why": why}
+    for _ in range(ctx.n(40, 200)):
         layout = gen_layout(rng, fls=[rng.choice(FL_SIMPLE)])
         try:
-            text = run_e2e(ctx, layout)
+            why = oracle_e2e(ctx, layout)
         except SystemExit:
             continue
-        obs = canon_impl(e, text, "@//%s:out.txt" % layout["reqs_dir"], None, {})
-        if obs[0] != "OK":
-            return {"kind": "e2e", "input": layout, "why": "the loader rejects the lock compile_main wrote: " + str(obs[1])}
+        if why:
+            return {"kind": "e2e", "input": layout, "why": why}
     return None
 
 
@@ -1038,8 +1159,7 @@ def replay(ctx: Ctx, payload: Dict[str, Any]) -> bool:
     if fi["kind"] == "name":
         return _name_oracle(e, fi["input"]) is not None
     if fi["kind"] == "e2e":
-        text = run_e2e(ctx, fi["input"])
-        return canon_impl(e, text, "@//%s:out.txt" % fi["input"]["reqs_dir"], None, {})[0] != "OK"
+        return oracle_e2e(ctx, fi["input"]) is not None
     return False
 
 
